@@ -199,6 +199,12 @@ def queries(tier):
                 qs.append(Query('step %s state=%d keys key=⟦%d⟧' % (op, nk, kl), h_step,
                                 {'nkeys': nk, 'klen': [1, 2, 1][:nk] if nk <= 3 else 1, 'vlen': 1, 'op': op, 'keylen': kl, 'vallen': vl},
                                 bound='pre-state: any %d entries satisfying the invariant (keys of 1-2 free bytes, values 1 free byte); argument key: any valid-UTF-8 string of %d bytes' % (nk, kl)))
+    # long (3-byte) argument keys for the lookup family: covers non-ASCII look-alikes of stored ASCII keys (U+212A, U+017F)
+    for op in ('get', 'contains_key', 'remove', 'index', 'entry', 'insert', 'get_mut_set', 'index_set'):
+        for nk in ((1, 2) if th else (1,)):
+            qs.append(Query('step %s state=%d keys key=⟦3⟧ (1-byte stored keys)' % (op, nk), h_step,
+                            {'nkeys': nk, 'klen': [1, 1][:nk], 'vlen': 1, 'op': op, 'keylen': 3, 'vallen': 1 if op in WITHVAL else 0},
+                            bound='pre-state: %d one-byte keys; argument key: any valid-UTF-8 string of 3 bytes' % nk))
     for n in range(0, 4 if th else 3):
         for kl in ((1, 2) if th else (1,)):
             qs.append(Query('try_from_iter %d pairs key=⟦%d⟧' % (n, kl), h_from_iter, {'n': n, 'klen': kl, 'vlen': 1},
